@@ -12,7 +12,7 @@ func VerifC16Env() {
 	in1 := vrtChoice("inFile1", 2) == 1
 	in2 := vrtChoice("inFile2", 2) == 1
 	mode := vrtChoice("environment", 4) // 0 none, 1 value, 2 valueless, 3 empty
-	env := types.Mapping{"PEV": "pev" + v}
+	env := types.Mapping{"PEV": "pev" + v, "EMPTYP": ""}
 	if inPE {
 		env["K"] = "pe" + v
 	}
@@ -20,7 +20,8 @@ func VerifC16Env() {
 	if in1 {
 		f1 += "K=f1" + v + "\n"
 	}
-	f2 := "R=${A}-${PEV}-${B}\n"
+	// EMPTYP is defined (empty) in the project environment and redefined on an earlier line: the outer value wins
+	f2 := "R=${A}-${PEV}-${B}\nEMPTYP=line\nQ=<${EMPTYP}>\n"
 	if in2 {
 		f2 = "K=f2" + v + "\nB=line\n" + f2
 	} else {
@@ -120,6 +121,8 @@ func VerifC16Env() {
 				vrtObserve("R-"+name, *r)
 				vrtAssert("reference-earlier-file-project-env-earlier-line", *r == a+"-pev"+v+"-line")
 			}
+			q, okq := e["Q"]
+			vrtAssert("empty-outer-value-beats-earlier-line", okq && q != nil && *q == "<>")
 		}
 		if discard {
 			vrtAssert("discard-removes-file-references", len(svc.EnvFiles) == 0)
